@@ -372,7 +372,7 @@ func logJobs(thorough bool) []string {
 	if !thorough {
 		return append(jobs, "group/all")
 	}
-	for i := 0; i < 25; i++ {
+	for i := 0; i < 30; i++ { // 5 resources x 6 scopes
 		jobs = append(jobs, fmt.Sprintf("group/first=%02d", i))
 	}
 	return jobs
